@@ -32,6 +32,8 @@ MUTATOR_HISTORIES = [
     ["dct-a", "dct-a/setk-b", "dct-a", "dct-a/setk-c", "dct-a/setk-b", "dct-a/setk-b/setk-c", "dct-a/setk-b", "dct-a"],
     ["dct-a/nest-p", "dct-a/nest-p/nest-q", "dct-a/nest-p", "dct-a/nest-p/nest-q/nest-r", "dct-a/nest-p/nest-q", "dct-a/nest-p"],
     ["dct-a/nest-p/setk-b", "dct-a/nest-p", "dct-a/nest-p/setk-b/nest-q", "dct-a/nest-p/setk-b", "dct-a/nest-p", "dct-a"],
+    # insertion order of a dictionary is part of its value for an order-sensitive command applied to a (possibly cached, re-read) parent
+    ["dct-z/setk-b", "dct-z/setk-b/dkeys", "dct-z/setk-b/setk-a/dkeys", "dct-z/setk-b/setk-a", "dct-z/setk-b/setk-a/dkeys", "dct-z/dkeys"],
 ]
 
 
@@ -109,7 +111,7 @@ def gen_history(rng, fam, length, plain_only=False):
         q = rng.choice(fam)
         r = rng.random()
         if plain_only or r < 0.58:
-            ops.append(("E", q))
+            ops.append(("E", q) if plain_only or rng.random() < 0.85 else ("E", q, "described"))
         elif r < 0.72:
             ops.append(("V", q, rng.choice(INPUTS), rng.random() < 0.4))
         elif r < 0.80:
@@ -207,7 +209,8 @@ class ImplSession:
                 return st
             return g
         ctxf = {
-            "E": lambda: get_context().evaluate(op[1]),
+            # ("E", q, "described"): the same evaluation called with a description (what evaluate_template and the GUI do); same wire form
+            "E": (lambda: get_context().evaluate(op[1], description="verif: described evaluation")) if len(op) > 2 else (lambda: get_context().evaluate(op[1])),
             "V": lambda: get_context().evaluate_on(op[2], op[1]) if op[3] else get_context().evaluate(op[1], input_value=op[2]),
             "XL": lambda: get_context().evaluate(op[1], extra_parameters=list(op[2])),
             "XD": lambda: get_context().evaluate(op[1], extra_parameters=dict(op[2])),
